@@ -399,8 +399,8 @@ func fieldTest(cond ssa.Value) (f ssa.Value, refine func(St, bool) St) {
 					}
 				}
 			}
+			return nil, nil
 		}
-		return nil, nil
 	}
 	// f.IsRepeat
 	if ld, ok := cond.(*ssa.UnOp); ok && ld.Op == token.MUL {
@@ -418,8 +418,17 @@ func fieldTest(cond ssa.Value) (f ssa.Value, refine func(St, bool) St) {
 		}
 	}
 	// a predicate of the repo handed one field: `isSingleNumber(f)`, `g.isText(f)` - what is known about the field where it says yes
-	if c, ok := cond.(*ssa.Call); ok {
-		if h := c.Call.StaticCallee(); h != nil && h.Blocks != nil && theWorld != nil && theWorld.isRepoLike(h) && h.Signature.Results().Len() == 1 && isBoolType(h.Signature.Results().At(0).Type()) {
+	predCall, predIdx := (*ssa.Call)(nil), 0
+	switch x := cond.(type) {
+	case *ssa.Call:
+		predCall = x
+	case *ssa.Extract:
+		if cc, ok := x.Tuple.(*ssa.Call); ok {
+			predCall, predIdx = cc, x.Index
+		}
+	}
+	if c := predCall; c != nil {
+		if h := c.Call.StaticCallee(); h != nil && h.Blocks != nil && theWorld != nil && theWorld.isRepoLike(h) && predIdx < h.Signature.Results().Len() && isBoolType(h.Signature.Results().At(predIdx).Type()) {
 			pidx := -1
 			for i, a := range c.Call.Args {
 				if isFieldPtr(a.Type()) && i < len(h.Params) {
@@ -430,7 +439,7 @@ func fieldTest(cond ssa.Value) (f ssa.Value, refine func(St, bool) St) {
 				}
 			}
 			if pidx >= 0 {
-				yes := predicateYes(h, pidx)
+				yes := predicateYes(h, pidx, predIdx)
 				if yes != stTop {
 					return c.Call.Args[pidx], func(s St, edge bool) St {
 						if edge != neg {
@@ -447,13 +456,13 @@ func fieldTest(cond ssa.Value) (f ssa.Value, refine func(St, bool) St) {
 	return nil, nil
 }
 
-var predicateYesMemo = map[*ssa.Function]map[int]St{}
+var predicateYesMemo = map[*ssa.Function]map[[2]int]St{}
 var predicateYesBusy = map[*ssa.Function]bool{}
 
 // predicateYes: an over-approximation of the state of parameter pidx of the bool function h on the calls where h returns true.
-func predicateYes(h *ssa.Function, pidx int) St {
+func predicateYes(h *ssa.Function, pidx int, resIdx int) St {
 	if m := predicateYesMemo[h]; m != nil {
-		if st, ok := m[pidx]; ok {
+		if st, ok := m[[2]int{pidx, resIdx}]; ok {
 			return st
 		}
 	}
@@ -513,10 +522,10 @@ func predicateYes(h *ssa.Function, pidx int) St {
 	out := stBot
 	for _, b := range h.Blocks {
 		ret, ok := b.Instrs[len(b.Instrs)-1].(*ssa.Return)
-		if !ok || len(ret.Results) != 1 {
+		if !ok || resIdx >= len(ret.Results) {
 			continue
 		}
-		st := whenTrue(ret.Results[0], 0)
+		st := whenTrue(ret.Results[resIdx], 0)
 		for _, t := range tests {
 			for succ := 0; succ < 2; succ++ {
 				if edgeDominates(t.b, succ, b) {
@@ -527,9 +536,9 @@ func predicateYes(h *ssa.Function, pidx int) St {
 		out = joinSt(out, st)
 	}
 	if predicateYesMemo[h] == nil {
-		predicateYesMemo[h] = map[int]St{}
+		predicateYesMemo[h] = map[[2]int]St{}
 	}
-	predicateYesMemo[h][pidx] = out
+	predicateYesMemo[h][[2]int{pidx, resIdx}] = out
 	return out
 }
 
